@@ -20,6 +20,8 @@ var (
 )
 
 // SiteName renders a site id as file:line.
+//
+//go:norace
 func SiteName(id int) string {
 	for _, f := range SiteFiles {
 		if id >= f.From && id < f.To {
@@ -29,6 +31,7 @@ func SiteName(id int) string {
 	return "?"
 }
 
+//go:norace
 func itoa(n int) string {
 	if n == 0 {
 		return "0"
@@ -52,12 +55,15 @@ func itoa(n int) string {
 }
 
 // Y is the statement-level yield. Unarmed it costs two loads.
+//
+//go:norace
 func Y(id int) {
 	if S != nil {
 		yslow(id)
 	}
 }
 
+//go:norace
 func yslow(id int) {
 	s := S
 	if s.dying {
@@ -83,6 +89,8 @@ func yslow(id int) {
 
 // Arm arms a pseudo-random subset (num/den, selected by sel) of the sites of the
 // files whose path matches one of the given prefixes/suffixes.
+//
+//go:norace
 func (s *Sim) Arm(files []string, num, den int, sel uint32) {
 	if num <= 0 {
 		return
@@ -108,6 +116,8 @@ func (s *Sim) Arm(files []string, num, den int, sel uint32) {
 
 // ArmDraw draws the arming density and selection for this run (swarm style) and
 // arms. Density 0 is the simplest answer.
+//
+//go:norace
 func (s *Sim) ArmDraw(files []string) {
 	k := s.Ch.Weighted(3, 2, 2, 2, 1)
 	sel := s.Ch.Raw()
@@ -125,10 +135,13 @@ func (s *Sim) ArmDraw(files []string) {
 
 type budgetErr struct{}
 
+//go:norace
 func (budgetErr) Error() string { return "zsim: statement budget exceeded" }
 
 // RuntimeError makes the value a runtime.Error, so that code under test that
 // recovers "ordinary" errors (the CBOR decoder does) lets it through.
+//
+//go:norace
 func (budgetErr) RuntimeError() {}
 
 // BudgetExceeded is the panic value raised when the statement budget set with
@@ -137,6 +150,8 @@ var BudgetExceeded = budgetErr{}
 
 // SetBudget bounds the number of instrumented statements executed from now on
 // (0 = unlimited).
+//
+//go:norace
 func SetBudget(n int64) {
 	if S != nil {
 		S.budget = n
